@@ -235,7 +235,7 @@ class Gen:
                     if a.dtype.kind == "f" and a.size and not np.isfinite(a).all():
                         c = False
             v = V(o, arrs, "node", mag=in_mag if mag is None else mag, clean=c, seq=seq,
-                  nondet=any(i.nondet for i in ins if i is not None) or bool(getattr(self, "_mark_nondet", False)))
+                  nondet=(any(i.nondet for i in ins if i is not None) and tag not in ("Shape", "Size")) or bool(getattr(self, "_mark_nondet", False)))
             vs.append(v)
             self.vals.append(v)
         if tag:
@@ -1123,14 +1123,14 @@ def m_random(g):
     g._mark_nondet = True
     try:
         if form == "uniform":
-            r = g.add("RandomUniform", [], shape=[2, 3], dtype=TP.FLOAT, mag=1, clean=True)
+            r = g.add("RandomUniform", [], shape=[4, 6], dtype=TP.FLOAT, mag=1, clean=True)
         elif form == "uniform_const_chain":
             # all inputs constant: only the nondeterminism guard keeps this from being folded
-            r0 = g.add("RandomNormal", [], shape=[4], dtype=TP.FLOAT, mag=10, clean=True)
+            r0 = g.add("RandomNormal", [], shape=[32], dtype=TP.FLOAT, mag=10, clean=True)
             g._mark_nondet = False
             r = g.add("Mul", [r0, g.const(np.array(2.0, dtype=F32))], mag=20)
         elif form == "normal_like":
-            x = g.pick(lambda v: _f32(v) and v.static() and all(a.size > 1 for a in v.arrs))
+            x = g.pick(lambda v: _f32(v) and v.static() and all(a.size >= 16 for a in v.arrs))
             r = g.add("RandomNormalLike", [x], mag=10, clean=True)
         else:
             if g.opset < 12:
